@@ -559,6 +559,8 @@ def parse_configure(body):
                             walk(statements(b), n2)
                         continue
                 unsup.append("for(" + hs + "){" + text(b) + "}")
+            elif kind == "block":
+                walk(statements(head), dict(names))
             else:
                 unsup.append(text(head))
     walk(statements(body), {})
